@@ -1277,6 +1277,24 @@ func (x *sealedScn) runFlaky() {
 		return
 	}
 	x.rtDone = true
+	// ---- Store while the wrapper cannot tell its key ID (it seals and opens all the same): the Store is refused,
+	// or what it stored is a sealed record like any other
+	{
+		X := mk()
+		clear := proto.Clone(X)
+		fw.KeyIDFails = true
+		err := x.libStore(sd, X)
+		fw.KeyIDFails = false
+		if tok, ok := X.(*types.ServerLedActivationToken); ok {
+			clear.(*types.ServerLedActivationToken).CreationTimeMarshaled = tok.CreationTimeMarshaled
+		}
+		if err != nil {
+			r.Count("flaky:store_refused_while_key_id_lookup_fails:"+sealedTypeOf(clear), 1)
+		} else {
+			r.Count("flaky:store_succeeded_while_key_id_lookup_fails:"+sealedTypeOf(clear), 1)
+			x.roundTrip(sd, clear)
+		}
+	}
 	// ---- Store with a failing Encrypt
 	for k := 1; k <= 4; k++ {
 		X := mk()
